@@ -255,6 +255,9 @@ let eval (line : string) : string =
       let (b', ok) = step_body !cur_body (if k = 1 then Push (List.hd items) else PushN items) in
       cur_body := b';
       (if ok then "ok " else "err ") ^ body_state ()
+  (* BOFF <n> / BRECV: the harness re-makes the same body at another buf_offset / through the receive path; the model's
+     body has no offset (bbuf is what get_buf() returns), so nothing changes *)
+  | "BOFF" | "BRECV" -> "ok " ^ body_state ()
   (* ---- END C15 block ---- *)
   | _ -> "?"
 
